@@ -14,7 +14,7 @@ import os
 
 import sympy as sp
 
-from ..srcmodel import Unrecognised, AnchorMissing, unparse, call_name, kwarg, walk, statements, guards_of, const
+from ..srcmodel import established_false, Unrecognised, AnchorMissing, unparse, call_name, kwarg, walk, statements, guards_of, const
 from ..effects import Analyzer, clean_path, significant
 from .C04 import _bool_typed
 from .C07 import find_def
@@ -444,6 +444,51 @@ def d7_forwarding(ctx, js):
     ctx.check('C11-D3', 'json#array-layout', len(lay) == 1 and 'oa.shape' in unparse(lay[0].value), 'layout = logical shape of the array', 'layout = %s' % [unparse(x.value) for x in lay])
 
 
+class _NP:
+    any = staticmethod(lambda x: any(x))
+    all = staticmethod(lambda x: all(x))
+
+
+def d8_optional_keys(ctx, js):
+    """an optional key may be left out of the document only when the reader's default restores the same values: the reader
+    defaults a missing 'tag' to a list of None, so the list / array writers must write it as soon as ONE element carries a tag.
+    The guard of the store is evaluated on the three kinds of tag lists."""
+    rule = 'C11-D3'
+    for w in ('write_List_to_dict', 'write_Array_to_dict'):
+        f = js.func('create_json_string.' + w)
+        st = [s_ for s_ in statements(f) if isinstance(s_, ast.Assign) and unparse(s_.targets[0]) == "d['tag']"]
+        key = 'json#%s-tag-condition' % w
+        if len(st) != 1:
+            ctx.unrec(rule, key, 'expected one store of the tag list, found %d' % len(st))
+            continue
+        src = unparse(st[0].value)
+        gs = guards_of(js, st[0], stop=f)
+        wrong = []
+        for tl in ([None, None, None], [None, 'x', None], ['x', None, None], ['a', 'b', 'c'], [None, {'k': 1}, 0]):
+            written = True
+            for t_, pol in gs:
+                try:
+                    v = bool(eval(compile(ast.Expression(body=t_), '<guard>', 'eval'), {'__builtins__': {'any': any, 'all': all, 'len': len}, 'np': _NP}, {src: tl} if src.isidentifier() else {}))
+                except Exception as e:
+                    raise Unrecognised('cannot evaluate guard %s: %s' % (unparse(t_), e))
+                written = written and (v == pol)
+            need = any(x is not None for x in tl)
+            if need and not written:
+                wrong.append(tl)
+        ctx.check(rule, key, not wrong, 'the tag list is written whenever one element carries a tag (reader default for a missing key: all None)',
+                  'tag lists %s are not written: the reader restores None for every element, the tags are lost' % wrong, js.loc(st[0]))
+    # single-structure unwrapping must not reach the full_output dictionary: load_json_dict indexes obsdata by placeholder number
+    f = js.func('_parse_json_dict')
+    un = [s_ for s_ in statements(f) if isinstance(s_, ast.Assign) and isinstance(s_.value, ast.Subscript) and unparse(s_.targets[0]) == unparse(s_.value.value) and const(s_.value.slice) == 0]
+    key = 'json#single-structure-unwrapping'
+    if len(un) != 1:
+        ctx.unrec(rule, key, 'expected one unwrapping statement `ol = ol[0]`, found %d' % len(un))
+    else:
+        neg = [unparse(t_) for t_ in established_false(js, f, un[0])]
+        ctx.check(rule, key, 'full_output' in neg, 'the list of structures is unwrapped only when full_output is off (load_json_dict reads obsdata[k] of the full output)',
+                  'the single-structure unwrapping is reachable with full_output=True (conditions excluded here: %s): obsdata is no longer a list of structures and load_json_dict picks element k of the structure itself' % neg, js.loc(un[0]))
+
+
 def run(ctx):
     ctx.rule('C11-D1', 'emitted document is contained in the shipped schema')
     ctx.rule('C11-D2', 'writer/reader key and type-tag agreement')
@@ -456,6 +501,7 @@ def run(ctx):
     ctx.guarded('C11-D1', 'json@schema', d1_schema, ctx, js)
     ctx.guarded('C11-D2', 'json@keys', d2_keys, ctx, js)
     ctx.guarded('C11-D3', 'json@siblings', d3_siblings, ctx, js)
+    ctx.guarded('C11-D3', 'json@optional-keys', d8_optional_keys, ctx, js)
     ctx.guarded('C11-D4', 'json@offsets', d4_offsets, ctx, js)
     ctx.guarded('C11-D5', 'json@effects', d5_effects, ctx, js)
     ctx.guarded('C11-D6', 'json@transports', d6_transports, ctx, js)
@@ -471,6 +517,8 @@ def run(ctx):
 
 
 SELFTEST = [
+    ('list-tags-written-only-if-all', 'pyerrors/input/json.py', "        d['type'] = 'List'\n        d['layout'] = '%d' % len(ol)\n        taglist = [o.tag for o in ol]\n        if np.any(", "        d['type'] = 'List'\n        d['layout'] = '%d' % len(ol)\n        taglist = [o.tag for o in ol]\n        if np.all(", 'C11-D3'),
+    ('all:benign-tags-builtin-any', 'pyerrors/input/json.py', "        if np.any([tag is not None for tag in taglist]):", "        if any(tag is not None for tag in taglist):", 'BENIGN'),
     ('reweighted-numpy', 'pyerrors/obs.py', "o.reweighted = any(oi.reweighted for oi in list_of_obs)", "o.reweighted = np.max([oi.reweighted for oi in list_of_obs])", 'C11-D1'),
     ('writer-drops-reweighted', 'pyerrors/input/json.py', "        if ol[0].reweighted:\n            d['reweighted'] = ol[0].reweighted\n        d['value'] = [o.value for o in ol]\n        data = _gen_data_d_from_list(ol)\n        if len(data) > 0:\n            d['data'] = data\n        cdata = _gen_cdata_d_from_list(ol)\n        if len(cdata) > 0:\n            d['cdata'] = cdata\n        return d\n\n    def _nan_Obs_like", "        d['value'] = [o.value for o in ol]\n        data = _gen_data_d_from_list(ol)\n        if len(data) > 0:\n            d['data'] = data\n        cdata = _gen_cdata_d_from_list(ol)\n        if len(cdata) > 0:\n            d['cdata'] = cdata\n        return d\n\n    def _nan_Obs_like", 'C11-D3'),
     ('reader-drops-reweighted', 'pyerrors/input/json.py', "            ret[-1].reweighted = o.get('reweighted', False)\n            ret[-1].tag = taglist[i]\n        return np.reshape(ret, layout)", "            ret[-1].tag = taglist[i]\n        return np.reshape(ret, layout)", 'C11-D3'),
